@@ -79,6 +79,11 @@ def _common(K, rec, res, limit):
     rec.label(f"limit={limit}")
     if res.deadlock is not None:
         raise Violation(f"C17:deadlock:{view.deadlock_kind()}", f"plan {res.plan} limit {limit}\n{res.deadlock}\nlog tail {res.run.events[-10:]}")
+    if res.raised is not None and view.raised_kind().startswith("raised:internal-error"):
+        # an error inside the recovery machinery is re-submitted to recover() without consuming a retry
+        # (unbounded, up to RecursionError): "retries are bounded" does not hold for it
+        n = sum(1 for e in view.recoveries if e["exc"] not in ("WorkflowExecutionException", "FailureHandlingException"))
+        raise Violation(f"C17:{view.raised_kind()}", f"{n} recover() calls for internal errors; plan {res.plan} limit {limit}; versions {res.versions}")
     return view
 
 
